@@ -12,7 +12,7 @@ import common as C
 sc = C.mkscratch("setup")
 try:
     mod = C.assemble(sc)
-    for pkg in ("drvproto",):
+    for pkg in ("drvproto", "drvstore"):
         C.gobuild(mod, pkg, sc + "/" + pkg)
     print("harness builds")
 finally:
